@@ -13,6 +13,7 @@ import (
 	"github.com/dadrus/heimdall/verif/props/c15"
 	"github.com/dadrus/heimdall/verif/props/c16"
 	"github.com/dadrus/heimdall/verif/props/c18"
+	"github.com/dadrus/heimdall/verif/props/c20"
 )
 
 func main() {
@@ -30,6 +31,7 @@ func main() {
 		c15.Check(),
 		c16.Check(),
 		c18.Check(),
+		c20.Check(),
 	} {
 		checks[c.ID] = c
 	}
